@@ -317,6 +317,11 @@ def run(ctx):
         seen.add(key)
         acc = r.get("created") == "Ok" and r.get("verified") == "OK"
         bump("cred_%s_%s" % (r["acct"], "within" if want else "above"))
+        if r.get("created") == "Ok":
+            bump("cred_holder_context_%s" % ("superset" if r.get("holder_superset") else "exact"))
+            if not r.get("ar_keys_ok", True):
+                viol(r, "ar_data of the created credential covers revokers %s but the identity was issued for %s (holder context %s)" % (
+                    r.get("ar_keys"), r.get("chosen"), "is a strict superset" if r.get("holder_superset") else "= chosen"))
         if want:
             if acc and r.get("roundtrip") == "OK":
                 nontrivial.add(key)
@@ -391,7 +396,8 @@ def run(ctx):
     ctx.cov["rule"] = ("configurations: every (n revokers, threshold t) with 1<=t<=n<=%d x {v0,v1} plus sampled n up to 20 and threshold n+1 (must be refused); "
                        "revoker identities contiguous or sparse u32 incl. 2^32-1; attribute lists of 0-4 attributes, policies revealing none/some/all; "
                        "max_accounts in {0,1,2,3,200,237,254,255}, counters 0,1,max-1,max (accept) and max+1 (reject/unproducible); new and existing accounts; "
-                       "every revoker subset for n<=5 (sizes >= t reconstruct, < t must not), sampled subsets above; perturbation stream over every field of values, "
+                       "credential-creation context = the chosen revokers or a strict superset of them (ar_data must cover exactly the chosen ones); "
+                       "every revoker subset for n<=5 (sizes >= t reconstruct, < t must not), sampled subsets above; perturbation stream (modify / remove / ADD an entry in every map- or list-valued part) over every field of values, "
                        "commitments, proof components, byte flips and context, raw and re-signed; non-trivial = case whose expected verdict was observed on the real code; "
                        "distinct = canonical case hash") % (4 if ctx.quick else 5)
     for k in ("issue", "cred", "prf", "icp", "leq"):
